@@ -1,9 +1,9 @@
 Gen/GenChunk.vo Gen/GenChunk.glob Gen/GenChunk.v.beautified Gen/GenChunk.required_vo: Gen/GenChunk.v Lib/NumOps.vo
 Gen/GenChunk.vio: Gen/GenChunk.v Lib/NumOps.vio
 Gen/GenChunk.vos Gen/GenChunk.vok Gen/GenChunk.required_vos: Gen/GenChunk.v Lib/NumOps.vos
-Gen/GenProto.vo Gen/GenProto.glob Gen/GenProto.v.beautified Gen/GenProto.required_vo: Gen/GenProto.v Lib/NumOps.vo
-Gen/GenProto.vio: Gen/GenProto.v Lib/NumOps.vio
-Gen/GenProto.vos Gen/GenProto.vok Gen/GenProto.required_vos: Gen/GenProto.v Lib/NumOps.vos
+Gen/GenProto.vo Gen/GenProto.glob Gen/GenProto.v.beautified Gen/GenProto.required_vo: Gen/GenProto.v 
+Gen/GenProto.vio: Gen/GenProto.v 
+Gen/GenProto.vos Gen/GenProto.vok Gen/GenProto.required_vos: Gen/GenProto.v 
 Gen/GenStruct.vo Gen/GenStruct.glob Gen/GenStruct.v.beautified Gen/GenStruct.required_vo: Gen/GenStruct.v Lib/NumOps.vo
 Gen/GenStruct.vio: Gen/GenStruct.v Lib/NumOps.vio
 Gen/GenStruct.vos Gen/GenStruct.vok Gen/GenStruct.required_vos: Gen/GenStruct.v Lib/NumOps.vos
@@ -25,6 +25,9 @@ Model/Conf.vos Model/Conf.vok Model/Conf.required_vos: Model/Conf.v Lib/NumOps.v
 Model/Core.vo Model/Core.glob Model/Core.v.beautified Model/Core.required_vo: Model/Core.v Lib/NumOps.vo Gen/GenProto.vo
 Model/Core.vio: Model/Core.v Lib/NumOps.vio Gen/GenProto.vio
 Model/Core.vos Model/Core.vok Model/Core.required_vos: Model/Core.v Lib/NumOps.vos Gen/GenProto.vos
+Model/Death.vo Model/Death.glob Model/Death.v.beautified Model/Death.required_vo: Model/Death.v Gen/GenStruct.vo
+Model/Death.vio: Model/Death.v Gen/GenStruct.vio
+Model/Death.vos Model/Death.vok Model/Death.required_vos: Model/Death.v Gen/GenStruct.vos
 Model/OrderHist.vo Model/OrderHist.glob Model/OrderHist.v.beautified Model/OrderHist.required_vo: Model/OrderHist.v Gen/GenStruct.vo
 Model/OrderHist.vio: Model/OrderHist.v Gen/GenStruct.vio
 Model/OrderHist.vos Model/OrderHist.vok Model/OrderHist.required_vos: Model/OrderHist.v Gen/GenStruct.vos
@@ -40,12 +43,18 @@ Proofs/CoreCons.vos Proofs/CoreCons.vok Proofs/CoreCons.required_vos: Proofs/Cor
 Proofs/CoreLemmas.vo Proofs/CoreLemmas.glob Proofs/CoreLemmas.v.beautified Proofs/CoreLemmas.required_vo: Proofs/CoreLemmas.v Lib/NumOps.vo Gen/GenProto.vo Model/Core.vo Spec/ProtoSpec.vo
 Proofs/CoreLemmas.vio: Proofs/CoreLemmas.v Lib/NumOps.vio Gen/GenProto.vio Model/Core.vio Spec/ProtoSpec.vio
 Proofs/CoreLemmas.vos Proofs/CoreLemmas.vok Proofs/CoreLemmas.required_vos: Proofs/CoreLemmas.v Lib/NumOps.vos Gen/GenProto.vos Model/Core.vos Spec/ProtoSpec.vos
+Proofs/CoreLife.vo Proofs/CoreLife.glob Proofs/CoreLife.v.beautified Proofs/CoreLife.required_vo: Proofs/CoreLife.v Lib/NumOps.vo Gen/GenProto.vo Model/Core.vo Spec/ProtoSpec.vo Proofs/CoreLemmas.vo Proofs/CoreCons.vo Proofs/CoreOrder.vo
+Proofs/CoreLife.vio: Proofs/CoreLife.v Lib/NumOps.vio Gen/GenProto.vio Model/Core.vio Spec/ProtoSpec.vio Proofs/CoreLemmas.vio Proofs/CoreCons.vio Proofs/CoreOrder.vio
+Proofs/CoreLife.vos Proofs/CoreLife.vok Proofs/CoreLife.required_vos: Proofs/CoreLife.v Lib/NumOps.vos Gen/GenProto.vos Model/Core.vos Spec/ProtoSpec.vos Proofs/CoreLemmas.vos Proofs/CoreCons.vos Proofs/CoreOrder.vos
 Proofs/CoreOrder.vo Proofs/CoreOrder.glob Proofs/CoreOrder.v.beautified Proofs/CoreOrder.required_vo: Proofs/CoreOrder.v Lib/NumOps.vo Gen/GenProto.vo Model/Core.vo Spec/ProtoSpec.vo Proofs/CoreLemmas.vo Proofs/CoreCons.vo
 Proofs/CoreOrder.vio: Proofs/CoreOrder.v Lib/NumOps.vio Gen/GenProto.vio Model/Core.vio Spec/ProtoSpec.vio Proofs/CoreLemmas.vio Proofs/CoreCons.vio
 Proofs/CoreOrder.vos Proofs/CoreOrder.vok Proofs/CoreOrder.required_vos: Proofs/CoreOrder.v Lib/NumOps.vos Gen/GenProto.vos Model/Core.vos Spec/ProtoSpec.vos Proofs/CoreLemmas.vos Proofs/CoreCons.vos
 Proofs/CoreResult.vo Proofs/CoreResult.glob Proofs/CoreResult.v.beautified Proofs/CoreResult.required_vo: Proofs/CoreResult.v Lib/NumOps.vo Gen/GenProto.vo Model/Core.vo Spec/ProtoSpec.vo Proofs/CoreCons.vo
 Proofs/CoreResult.vio: Proofs/CoreResult.v Lib/NumOps.vio Gen/GenProto.vio Model/Core.vio Spec/ProtoSpec.vio Proofs/CoreCons.vio
 Proofs/CoreResult.vos Proofs/CoreResult.vok Proofs/CoreResult.required_vos: Proofs/CoreResult.v Lib/NumOps.vos Gen/GenProto.vos Model/Core.vos Spec/ProtoSpec.vos Proofs/CoreCons.vos
+Proofs/DeathProofs.vo Proofs/DeathProofs.glob Proofs/DeathProofs.v.beautified Proofs/DeathProofs.required_vo: Proofs/DeathProofs.v Gen/GenStruct.vo Model/Death.vo
+Proofs/DeathProofs.vio: Proofs/DeathProofs.v Gen/GenStruct.vio Model/Death.vio
+Proofs/DeathProofs.vos Proofs/DeathProofs.vok Proofs/DeathProofs.required_vos: Proofs/DeathProofs.v Gen/GenStruct.vos Model/Death.vos
 Proofs/OrderHistProofs.vo Proofs/OrderHistProofs.glob Proofs/OrderHistProofs.v.beautified Proofs/OrderHistProofs.required_vo: Proofs/OrderHistProofs.v Gen/GenStruct.vo Model/OrderHist.vo
 Proofs/OrderHistProofs.vio: Proofs/OrderHistProofs.v Gen/GenStruct.vio Model/OrderHist.vio
 Proofs/OrderHistProofs.vos Proofs/OrderHistProofs.vok Proofs/OrderHistProofs.required_vos: Proofs/OrderHistProofs.v Gen/GenStruct.vos Model/OrderHist.vos
@@ -58,6 +67,9 @@ Props/C01.vos Props/C01.vok Props/C01.required_vos: Props/C01.v Lib/NumOps.vos G
 Props/C02.vo Props/C02.glob Props/C02.v.beautified Props/C02.required_vo: Props/C02.v Lib/NumOps.vo Gen/GenProto.vo Model/Core.vo Spec/ProtoSpec.vo Proofs/CoreCons.vo Proofs/CoreResult.vo
 Props/C02.vio: Props/C02.v Lib/NumOps.vio Gen/GenProto.vio Model/Core.vio Spec/ProtoSpec.vio Proofs/CoreCons.vio Proofs/CoreResult.vio
 Props/C02.vos Props/C02.vok Props/C02.required_vos: Props/C02.v Lib/NumOps.vos Gen/GenProto.vos Model/Core.vos Spec/ProtoSpec.vos Proofs/CoreCons.vos Proofs/CoreResult.vos
+Props/C12.vo Props/C12.glob Props/C12.v.beautified Props/C12.required_vo: Props/C12.v Lib/NumOps.vo Gen/GenProto.vo Gen/GenStruct.vo Model/Core.vo Spec/ProtoSpec.vo Proofs/CoreCons.vo Proofs/CoreResult.vo Proofs/CoreLife.vo Model/Death.vo Proofs/DeathProofs.vo
+Props/C12.vio: Props/C12.v Lib/NumOps.vio Gen/GenProto.vio Gen/GenStruct.vio Model/Core.vio Spec/ProtoSpec.vio Proofs/CoreCons.vio Proofs/CoreResult.vio Proofs/CoreLife.vio Model/Death.vio Proofs/DeathProofs.vio
+Props/C12.vos Props/C12.vok Props/C12.required_vos: Props/C12.v Lib/NumOps.vos Gen/GenProto.vos Gen/GenStruct.vos Model/Core.vos Spec/ProtoSpec.vos Proofs/CoreCons.vos Proofs/CoreResult.vos Proofs/CoreLife.vos Model/Death.vos Proofs/DeathProofs.vos
 Props/C14.vo Props/C14.glob Props/C14.v.beautified Props/C14.required_vo: Props/C14.v Lib/NumOps.vo Gen/GenChunk.vo Model/Chunk.vo Spec/ChunkSpec.vo Proofs/ChunkPartition.vo Proofs/ChunkSizes.vo
 Props/C14.vio: Props/C14.v Lib/NumOps.vio Gen/GenChunk.vio Model/Chunk.vio Spec/ChunkSpec.vio Proofs/ChunkPartition.vio Proofs/ChunkSizes.vio
 Props/C14.vos Props/C14.vok Props/C14.required_vos: Props/C14.v Lib/NumOps.vos Gen/GenChunk.vos Model/Chunk.vos Spec/ChunkSpec.vos Proofs/ChunkPartition.vos Proofs/ChunkSizes.vos
